@@ -68,7 +68,7 @@ def models(rng, quick):
     from rpylib.model.levymodel.purejump.variancegamma import VGParameters, VarianceGammaModel
     u = rng.uniform
     out = []
-    for _ in range(1 if quick else 4):
+    for _ in range(1 if quick else 10):
         out.append(("hem", HEMModel(HEMParameters(u(0.05, 0.4), u(0.2, 0.8), u(3, 30), u(3, 30), u(0.5, 8)))))
         out.append(("merton", MertonModel(MertonParameters(u(0.05, 0.4), u(0.01, 0.3), u(0.1, 0.4), u(0.5, 8)))))
         out.append(("vg", VarianceGammaModel(VGParameters(u(0.1, 0.4), u(0.1, 0.6), u(-0.3, 0.2)))))
